@@ -75,6 +75,15 @@ def op_pool(ctx, lays):
                 k0 = rng.choice(list(bad))
                 bad[k0] = "not-a-number"
                 ops.append({"kind": "construct", "cls": l["cls"], "id": l["id"], "mode": l["m"], "pbf": pbf, "kwargs": bad})
+    # messages the library does not know (unknown class / id / MGA type), with and without payload, in every mode
+    for c, i in ((0x77, 0x12), (0x06, 0x99), (0x01, 0xEE), (0x13, 0x00), (0x13, 0x99), (0xF0, 0x7F)):
+        for m in (0, 1, 2):
+            ops.append({"kind": "parse", "f": frame(c, i, rng.randbytes(rng.randrange(1, 9))).hex(), "mode": m, "pbf": 1})
+        ops.append({"kind": "parse", "f": frame(c, i, b"").hex(), "mode": 0, "pbf": 1})
+        ops.append({"kind": "parse", "f": frame(0x05, 0x01, bytes((c, i))).hex(), "mode": 0, "pbf": 1})   # ACK naming that class/id (str() decodes it)
+    # keyword constructions that leave array / group attributes to their nominal value
+    for c, i, m, kw in ((0x0A, 0x31, 0, {"version": 0, "numRfBlocks": 2}), (0x02, 0x73, 0, {"gnssId": 5}), (0x0A, 0x31, 0, {"version": 0, "numRfBlocks": 1})):
+        ops.append({"kind": "construct", "cls": c, "id": i, "mode": m, "pbf": 1, "kwargs": kw})
     for _ in range(12):
         es = rng.sample(cfgdb, rng.randrange(1, 8))
         es = [e for e in es if e["t"][0] in "UEL"]
@@ -157,6 +166,9 @@ def run(ctx):
                 continue
             P = walk.fill(l, "count", rng, cfgdb)
             allops.append(((l["cls"], l["id"], l["m"]), {"kind": "parse", "f": frame(l["cls"], l["id"], P).hex(), "mode": l["m"], "pbf": 1}))
+        extra = [o for o in ops if o["kind"] == "construct" and len(o["kwargs"]) <= 2] + [o for o in ops if o["kind"] == "parse" and len(o["f"]) <= 40]
+        for o in extra[:60]:
+            allops.append(((o.get("cls", 0), o.get("id", 0), o.get("mode", 0)), o))
         keys = [k for k, _ in allops]
         opl = [o for _, o in allops]
         n = len(opl)
